@@ -20,6 +20,11 @@ def gen_op(text, step, scoped_ok):
         return ('rm', '@' * d + nm), 'scoped'
     kind = R.choice(['existing', 'existing', 'fresh', 'fresh_nested', 'deep', 'missing', 'collide'])
     if not paths: kind = 'fresh'
+    if R.random() < 0.06:      # a segment spelled like a reserved word, written bare in the path (seventh round): it must be emitted quoted and found again
+        kw = R.choice(['with', 'assert', 'in', 'let', 'rec', 'if', 'then', 'else', 'inherit'])
+        pre = R.choice(paths)[:-1] if paths and R.random() < 0.5 else ()
+        ps = (pstr(pre) + '.' if pre else '') + kw + ('.sub' if R.random() < 0.3 else '')
+        return (('set', ps, R.choice(VALUES)) if R.random() < 0.75 else ('rm', ps)), 'keyword'
     if kind == 'collide':            # a missing key that equals the leaf name of an attrpath binding one level down (`a.q` next to `a.p.q = 1`)
         cands = [q for q in paths if len(q) >= 2 and q[:-2] + (q[-1],) not in paths]
         deep = [q for q in cands if len(q) >= 3]
@@ -241,7 +246,40 @@ def set_ends_with_comment(text):
     return bool(kids) and kids[-1].type == 'comment'
 
 # =================================================================================== C19
+def explicit_path(text, k):
+    """every prefix of the path is an explicit single-name binding (`a = { b = …; };`, never `a.b = …;`)"""
+    import nixread
+    n = nixread.set_node(nixread.ts(text))
+    for i, seg in enumerate(k):
+        if n is None or n.type not in ('attrset_expression', 'rec_attrset_expression'): return False
+        hit = None
+        for b in nixread.bindings(n):
+            if b.type != 'binding': continue
+            names = nixread.attr_names(b.child_by_field_name('attrpath'))
+            if names and names[0] == seg:
+                if len(names) != 1: return False
+                hit = b.child_by_field_name('expression')
+        if hit is None: return False
+        n = hit
+    return True
+
+DIRECTED_C19 = [     # unconditional: scope-prefixed sets on explicitly nested body paths of documents without a let (seventh round)
+    ('{\n  a = {\n    b = 1;\n  };\n  d = 3;\n}\n', ['@a.b', '@d']),
+    ('{ pkgs }:\n{\n  meta = {\n    broken = false;\n    license = 1;\n  };\n  version = "1";\n}\n', ['@meta.broken', '@version', '@meta.license']),
+    ('{\n  a = {\n    b = {\n      c = 1;\n    };\n  };\n  x = {\n    y = 2;\n  };\n  z = 3;\n}\n', ['@a.b.c', '@x.y', '@z']),
+    ('let\n  k = 1;\nin\n{\n  a = {\n    b = 1;\n  };\n  d = 3;\n}\n', ['a.b', 'd', '@k']),
+]
 def run_C19():
+    import itertools
+    for text, paths in DIRECTED_C19:
+        outs = {}
+        for perm in itertools.permutations(paths):
+            a = parse(text); r = None; count('directed-commute')
+            for i, p in enumerate(perm): r = apply(a, ('set', p, str(10 + paths.index(p))))
+            outs[perm] = r
+        if len({str(v) for v in outs.values()}) > 1:
+            (p1, r1), (p2, r2) = [(k, v) for k, v in outs.items()][:1] + [(k, v) for k, v in outs.items() if str(v) != str(list(outs.values())[0])][:1]
+            bad('sets on different existing paths give different documents in different orders', doc=text, ops=[['set', p, str(10 + paths.index(p))] for p in p1], other_order=list(p2), pq=r1[1] if r1[0] == 'ok' else r1, qp=r2[1] if r2[0] == 'ok' else r2)
     for it in range(N):
         text, meta = gen_doc(R, scoped=True, maxlayers=2, layer_refs=0.5)
         if parse(text).rebuild() != text: continue       # canonical documents only
@@ -281,8 +319,16 @@ def run_C19():
                     if t2 is None or not tree_matches(t2[0], tree0, p): bad('rm then set of the removed value does not restore the attribute tree', doc=text, ops=[['rm', pstr(p)], ['set', pstr(p), v]], got=r2[1] if r2[0] == 'ok' else r2)
             elif law == 'commute' and len(leafs) >= 2:
                 cands = [pstr(k) for k in leafs] + (['@' * (i + 1) + k for i, L in enumerate(reversed(meta['layers'])) for k in L] if WRAPPERS[meta['shape']][2] else [])       # @^i name exists in the i-th layer from the innermost
+                if not meta['layers'] and WRAPPERS[meta['shape']][2] and not meta.get('commented') and R.random() < 0.5:
+                    # seventh round: without a let, a scope-prefixed path that exists in the body addresses the body (F-37's rule, whatever one thinks of
+                    # it, must at least be the same rule in either order and at every depth of the path)
+                    sc_all = [k for k in leafs if all(IDENT.match(s_) for s_ in k)]
+                    sc = [k for k in sc_all if explicit_path(text, k)]
+                    if len(sc) < len(sc_all) and len(sc_all) >= 2 and R.random() < 0.5: known['F-53'] = known.get('F-53', 0) + 1; continue     # listed: a body path written in attrpath form is not "found", a let is created, and from then on scoped sets go to the let
+                    cands = ['@' + pstr(k) for k in sc] if len(sc) >= 2 else cands
+                if len(set(cands)) < 2: continue
                 p, q_ = R.sample(sorted(set(cands)), 2)
-                if p.startswith(q_ + '.') or q_.startswith(p + '.'): continue
+                if p.lstrip('@').startswith(q_.lstrip('@') + '.') or q_.lstrip('@').startswith(p.lstrip('@') + '.'): continue
                 v, w = R.choice(VALUES[:5]), R.choice(VALUES[:5])
                 a = parse(text); r0 = apply(a, ('set', p, v)); ra = apply(nxt(a, r0), ('set', q_, w))
                 b = parse(text); r0 = apply(b, ('set', q_, w)); rb = apply(nxt(b, r0), ('set', p, v))
